@@ -6,7 +6,7 @@ CONSTANTS Cids = {1, 2, 3, 4}
           AsBuilt = {"ReAdd"}
           NCalls = 2
           Wide = FALSE
-          MaxNs = {1, 2, 3}
+          MaxNs = {1, 2}
           Family = "burst"
 INVARIANT Emit
 CHECK_DEADLOCK FALSE
